@@ -147,6 +147,11 @@ class MapToMolecule(Processor):
             else:
                 regular_graph.add_edge(idx, jdx)
 
+        # a residue without any neighbour (a part of its own in a residue
+        # graph of several parts) is not seen by the edge traversal
+        regular_graph.add_nodes_from(node for node in meta_molecule.nodes
+                                     if node not in restart_attr)
+
         # regular nodes have to match a block in the force-field by resname
         for node in regular_graph.nodes:
             self.node_to_block[node] = meta_molecule.nodes[node]["resname"]
